@@ -374,6 +374,13 @@ struct Scenario {
           std::string k = keyname(q.name); std::multiset<std::string> hosts; bool in_hosts = false;
           for (auto &l : S.hosts_lines) { auto t = split_ws(l); if (t.size() < 2) continue; for (size_t i = 1; i < t.size(); i++) if (keyname(t[i]) == k) { Addr a; if (Addr::parse(t[0], a)) { in_hosts = true; if ((q.family == AF_INET && a.family != AF_INET) || (q.family == AF_INET6 && a.family != AF_INET6)) continue; hosts.insert(std::to_string(a.family) + ":" + vf::hex(Bytes((const char *)a.b, a.family == AF_INET ? 4 : 16))); } } }
           Addr lit; bool literal = Addr::parse(q.name, lit);
+          if (literal) {
+            // a numeric host name: exactly that address, and only if it is of the requested family
+            std::string want = std::to_string(lit.family) + ":" + vf::hex(Bytes((const char *)lit.b, lit.family == AF_INET ? 4 : 16));
+            for (auto &a : q.addrs) { if ((q.family == AF_INET && a.family != AF_INET) || (q.family == AF_INET6 && a.family != AF_INET6)) fail(r, "C13.wrong-family-returned", ctx + ": literal " + q.name + " looked up with family " + std::to_string(q.family) + " returned an address of family " + std::to_string(a.family)); }
+            if (got.size() != 1 || *got.begin() != want) fail(r, "C13.literal-address-differs", ctx + ": literal " + q.name + " returned " + std::to_string(got.size()) + " addresses" + (got.empty() ? "" : ", first " + *got.begin()));
+            r.counters["c13.literals_checked"]++;
+          }
           if (in_hosts && !literal && k != "localhost") {
             // c-ares documents that related hosts-file lines (sharing a name or an address) are merged into one entry:
             // lower bound = addresses on lines naming the host, upper bound = addresses of the merged (transitively related) lines
